@@ -14,7 +14,7 @@ for s in $SEEDS; do
   fi
   ( cd "$D" && patch -p1 -s < "$patch" )
   for chk in $prop $(cat seeded/$s/also_checks 2>/dev/null); do
-    out=$(KVC_REPO="$D" bin/check $chk 2>&1); rc=$?
+    out=$(KVC_REPO="$D" KVC_EVIDENCE_DIR="$D/.evidence" bin/check $chk 2>&1); rc=$?
     first=$(echo "$out" | grep -E "^(VIOLATION|UNDECIDED|CHECKER-ERROR)" | head -1 | sed -E 's/^VIOLATION property=[A-Z0-9]+ replay=[^ ]+ obligation=//; s/^UNDECIDED property=[A-Z0-9]+ /UNDECIDED /' | cut -c1-200)
     nv=$(echo "$out" | grep -c "^VIOLATION")
     echo "$s	$chk	$rc	$nv violations; $first $note" | tee -a $OUT
